@@ -1115,7 +1115,9 @@ Qed.
 Lemma dec_plain n : Forall plain (dec n).
 Proof. apply dec_fuel_plain. constructor. Qed.
 Lemma dec_len n : (length (dec n) <= 20)%nat.
-Proof. unfold dec. pose proof (dec_fuel_len 20 n []). simpl in *. lia. Qed.
+Proof. unfold dec. pose proof (dec_fuel_len 20 n []) as H. cbn [length] in H. lia. Qed.
+
+Local Opaque dec.
 
 Lemma plain_SPC : plain SPC. Proof. repeat split. Qed.
 Lemma plain_LPAR : plain LPAR. Proof. repeat split. Qed.
@@ -1132,7 +1134,7 @@ Proof.
   - constructor; [apply plain_SPC|]. constructor; [apply plain_LPAR|].
     apply Forall_app. split; [apply dec_plain|constructor; [apply plain_RPAR|constructor]].
   - discriminate.
-  - simpl. rewrite app_length. pose proof (dec_len n). simpl. lia.
+  - rewrite !app_length. pose proof (dec_len n). cbn [length]. lia.
 Qed.
 
 Lemma hyphen_suffix_ok n : suffix_ok ([HYP] ++ dec n).
@@ -1140,7 +1142,7 @@ Proof.
   repeat split.
   - constructor; [apply plain_HYP|apply dec_plain].
   - discriminate.
-  - simpl. pose proof (dec_len n). lia.
+  - rewrite app_length. pose proof (dec_len n). cbn [length]. lia.
 Qed.
 
 Lemma default_paren_ok : suffix_ok [SPC; LPAR; 50; RPAR].
@@ -1162,7 +1164,7 @@ Proof. intros [t ->] [u ->]. exists (t ++ u). rewrite app_assoc. reflexivity. Qe
 Lemma slice_prefix s n r : slice s 0 n = Ok r -> is_prefix r s.
 Proof.
   unfold slice. destruct (_ && _); [|discriminate]. intros H. inversion H; subst.
-  rewrite firstn_skipn0. exists (skipn n s). symmetry. apply firstn_skipn.
+  exists (skipn n s). rewrite Nat.sub_0_r. symmetry. apply (firstn_skipn n s).
 Qed.
 
 Lemma lws_renamed first rest base suffix :
@@ -1243,8 +1245,9 @@ Proof.
   cbn [bind].
   destruct (parse_u32 _) as [number|]; [|exact DONE].
   destruct (number =? 4294967295); [exact DONE|].
+  assert (Bhp : is_char_boundary first hp = true) by (eapply boundary_at_noncont; [exact P0|reflexivity]).
   destruct (slice first 0 hp) as [base| | |] eqn:Sb.
-  2-4: rewrite (slice_ok first 0 hp) in Sb by (try lia; try reflexivity; eapply boundary_at_noncont; [exact P0|reflexivity]); discriminate.
+  2-4: rewrite (slice_ok first 0 hp) in Sb by (try lia; try reflexivity; exact Bhp); discriminate.
   cbn [bind].
   destruct (lws_renamed first rest base _ R (slice_prefix _ _ _ Sb) (hyphen_suffix_ok (number + 1))) as (new & En & Rn).
   rewrite En. cbn [bind]. eauto.
@@ -1254,3 +1257,235 @@ Lemma name_change_total s : utf8_valid s = true -> total (name_change s).
 Proof. intros H. destruct (name_change_renamed s (valid_wfs s H)) as (r & -> & _). apply total_ok. Qed.
 Lemma hostname_change_total s : utf8_valid s = true -> total (hostname_change s).
 Proof. intros H. destruct (hostname_change_renamed s (valid_wfs s H)) as (r & -> & _). apply total_ok. Qed.
+
+(* ---- renamed names stay encodable ---- *)
+
+Lemma labels_fit_Bnd s : labels_fit s = true <-> Bnd 63 (name_labels s).
+Proof.
+  unfold labels_fit, Bnd. rewrite forallb_forall, Forall_forall. split; intros H l Hl; specialize (H l Hl).
+  - rewrite label_fits_pinned in H. apply N.ltb_lt in H. unfold blen in H. lia.
+  - rewrite label_fits_pinned. apply N.ltb_lt. unfold blen. lia.
+Qed.
+
+Lemma pen_bound_plain n : forall m x, (length x <= m)%nat -> forall c t cur acc,
+  plain c -> (length cur + length x + 1 <= n)%nat -> Bnd n acc ->
+  exists cur' acc', pen (x ++ c :: t) cur acc = pen t cur' acc'
+    /\ (length cur' <= length cur + length x + 1)%nat /\ Bnd n acc'.
+Proof.
+  induction m as [|m IH]; intros x Hl c t cur acc Pc Hn Hb; destruct Pc as (Pc0 & Pc1 & Pc2).
+  - destruct x; [|simpl in Hl; lia]. cbn [app]. cbn [pen]. rewrite Pc2, Pc1.
+    exists (cur ++ [c]), acc. repeat split; [rewrite app_length; simpl; lia|exact Hb].
+  - destruct x as [|a x'].
+    { cbn [app]. cbn [pen]. rewrite Pc2, Pc1.
+      exists (cur ++ [c]), acc. repeat split; [rewrite app_length; simpl; lia|exact Hb]. }
+    simpl in Hl, Hn. change ((a :: x') ++ c :: t) with (a :: (x' ++ c :: t)). cbn [pen].
+    destruct (a =? BSL) eqn:EB.
+    + destruct x' as [|b x''].
+      * cbn [app]. rewrite Pc1, Pc2. cbn [orb pen]. rewrite Pc2, Pc1.
+        exists ((cur ++ [a]) ++ [c]), acc. repeat split; [rewrite !app_length; simpl; lia|exact Hb].
+      * cbn [app]. simpl in Hl, Hn. destruct ((b =? DOT) || (b =? BSL)) eqn:Sp.
+        -- destruct (IH x'' ltac:(lia) c t (cur ++ [b]) acc (conj Pc0 (conj Pc1 Pc2))) as (cur' & acc' & E & L & B);
+             [rewrite app_length; simpl; lia|exact Hb|].
+           exists cur', acc'. repeat split; [exact E|rewrite app_length in L; simpl in *; lia|exact B].
+        -- destruct (IH (b :: x'') ltac:(simpl; lia) c t (cur ++ [a]) acc (conj Pc0 (conj Pc1 Pc2))) as (cur' & acc' & E & L & B);
+             [rewrite app_length; simpl; lia|exact Hb|].
+           exists cur', acc'. repeat split; [exact E|rewrite app_length in L; simpl in *; lia|exact B].
+    + destruct (a =? DOT).
+      * destruct (IH x' ltac:(lia) c t [] (push_label cur acc) (conj Pc0 (conj Pc1 Pc2))) as (cur' & acc' & E & L & B);
+          [simpl; lia|apply push_label_Bnd; [lia|exact Hb]|].
+        exists cur', acc'. repeat split; [exact E|simpl in *; lia|exact B].
+      * destruct (IH x' ltac:(lia) c t (cur ++ [a]) acc (conj Pc0 (conj Pc1 Pc2))) as (cur' & acc' & E & L & B);
+          [rewrite app_length; simpl; lia|exact Hb|].
+        exists cur', acc'. repeat split; [exact E|rewrite app_length in L; simpl in *; lia|exact B].
+Qed.
+
+Lemma pen_dotfree a : dotfree a -> forall r cur acc,
+  exists ua, pen (a ++ DOT :: r) cur acc = pen r [] (push_label (cur ++ ua) acc).
+Proof.
+  induction 1 as [|n a D IH|c a Hc1 Hc2 D IH]; intros r cur acc.
+  - exists []. simpl app. cbn [pen]. replace (DOT =? BSL) with false by reflexivity. rewrite N.eqb_refl.
+    rewrite app_nil_r. reflexivity.
+  - change ((BSL :: n :: a) ++ DOT :: r) with (BSL :: n :: (a ++ DOT :: r)). cbn [pen]. rewrite N.eqb_refl.
+    destruct ((n =? DOT) || (n =? BSL)) eqn:Sp.
+    + destruct (IH r (cur ++ [n]) acc) as [ua E]. exists (n :: ua). rewrite E, <- app_assoc. reflexivity.
+    + apply orb_false_iff in Sp as [S1 S2]. cbn [pen]. rewrite S2, S1.
+      destruct (IH r ((cur ++ [BSL]) ++ [n]) acc) as [ua E]. exists (BSL :: n :: ua).
+      rewrite E, <- !app_assoc. reflexivity.
+  - change ((c :: a) ++ DOT :: r) with (c :: (a ++ DOT :: r)). cbn [pen]. rewrite Hc1, Hc2.
+    destruct (IH r (cur ++ [c]) acc) as [ua E]. exists (c :: ua). rewrite E, <- app_assoc. reflexivity.
+Qed.
+
+Lemma strip_dot_last_nondot x c : (c =? DOT) = false -> strip_dot (x ++ [c]) = x ++ [c].
+Proof. intros H. unfold strip_dot. rewrite rev_app_distr. simpl. rewrite H. reflexivity. Qed.
+
+Lemma Bnd_rev n l : Bnd n l -> Bnd n (rev l).
+Proof. apply Forall_rev. Qed.
+
+Lemma renamed_fits orig res : renamed_of orig res -> Bnd 63 (name_labels orig) -> Bnd 63 (name_labels res).
+Proof.
+  intros (first & rest & kept & suffix & -> & R & _ & (S1 & S2 & _) & L & ->) Ho.
+  destruct (@exists_last _ suffix S2) as (s0 & c & ->).
+  assert (Pc : plain c). { apply Forall_app in S1 as [_ S1]. inversion S1; assumption. }
+  assert (Lx : (0 + length (kept ++ s0) + 1 <= 63)%nat) by (rewrite !app_length in *; simpl in *; lia).
+  (* the first label of the result, whatever follows *)
+  assert (HEAD : forall t, exists cur' acc', pen ((kept ++ s0) ++ c :: t) [] [] = pen t cur' acc'
+                  /\ (length cur' <= 63)%nat /\ Bnd 63 acc').
+  { intros t. destruct (pen_bound_plain 63 (length (kept ++ s0)) (kept ++ s0) (Nat.le_refl _) c t [] [] Pc Lx) as (cur' & acc' & E & L' & B);
+      [constructor|]. exists cur', acc'. repeat split; [exact E|simpl in L'; lia|exact B]. }
+  assert (ALONE : Bnd 63 (parse_escaped_name ((kept ++ s0) ++ [c]))).
+  { unfold parse_escaped_name.
+    destruct (HEAD []) as (cur' & acc' & E & L' & B). rewrite E. simpl. apply Bnd_rev. apply push_label_Bnd; assumption. }
+  replace (kept ++ (s0 ++ [c]) ++ rest) with (((kept ++ s0) ++ [c]) ++ rest) by (rewrite <- !app_assoc; reflexivity).
+  destruct R as [->|(r & -> & Df)].
+  { rewrite app_nil_r. unfold name_labels. rewrite strip_dot_last_nondot by (apply Pc). exact ALONE. }
+  destruct r as [|y r0].
+  { unfold name_labels in *. rewrite strip_dot_app_cons. change (strip_dot [DOT]) with (@nil N). rewrite app_nil_r. exact ALONE. }
+  unfold name_labels, parse_escaped_name in *.
+  rewrite strip_dot_app_cons, strip_dot_cons_dot in * by discriminate.
+  set (r' := strip_dot (y :: r0)) in *.
+  rewrite <- app_assoc. simpl app.
+  destruct (HEAD (DOT :: r')) as (cur' & acc' & E & L' & B). rewrite E. cbn [pen].
+  replace (DOT =? BSL) with false by reflexivity. rewrite N.eqb_refl. rewrite pen_acc.
+  apply Forall_app. split; [apply Bnd_rev; apply push_label_Bnd; assumption|].
+  destruct (pen_dotfree first Df r' [] []) as [ua E2]. rewrite E2, pen_acc in Ho.
+  apply Forall_app_r in Ho. exact Ho.
+Qed.
+
+Lemma wfs_ascii_app l tail : Forall plain l -> wfs tail -> wfs (l ++ tail).
+Proof.
+  induction 1 as [|a l Pa _ IH]; intros H; [exact H|].
+  simpl app. apply wfs_cons_ascii; [apply Pa|apply IH; exact H].
+Qed.
+
+Lemma renamed_wfs orig res : renamed_of orig res -> wfs orig -> wfs res.
+Proof.
+  intros (first & rest & kept & suffix & -> & R & (t & ->) & (S1 & S2 & _) & L & ->) Hw.
+  unfold wfs in *.
+  assert (Wk : nca (DOT :: kept) = true).
+  { replace (DOT :: (kept ++ t) ++ rest) with ((DOT :: kept) ++ (t ++ rest)) in Hw by (simpl; rewrite <- app_assoc; reflexivity).
+    apply nca_app_l in Hw. exact Hw. }
+  assert (Wr : wfs rest).
+  { destruct R as [->|(r & -> & _)]; [reflexivity|].
+    replace (DOT :: (kept ++ t) ++ DOT :: r) with ((DOT :: kept ++ t) ++ DOT :: r) in Hw by reflexivity.
+    apply nca_app_r in Hw. apply wfs_cons_ascii; [unfold DOT; lia|exact Hw]. }
+  pose proof (wfs_ascii_app suffix rest S1 Wr) as Ws.
+  destruct suffix as [|y b]; [congruence|]. simpl app in *.
+  change (DOT :: kept ++ y :: b ++ rest) with ((DOT :: kept) ++ y :: (b ++ rest)).
+  apply nca_app_noncont; [exact Wk|apply wfs_nca; exact Ws|].
+  inversion S1 as [|? ? Py _]; subst. apply ascii_not_cont. apply Py.
+Qed.
+
+Lemma plain_lt256 b : plain b -> b < 256.
+Proof. intros [H _]. lia. Qed.
+
+Lemma renamed_wf_bytes orig res : renamed_of orig res -> wf_bytes orig -> wf_bytes res.
+Proof.
+  intros (first & rest & kept & suffix & -> & R & (t & ->) & (S1 & _) & L & ->) Hw.
+  unfold wf_bytes in *. apply Forall_app in Hw as [Hf Hr]. apply Forall_app in Hf as [Hk _].
+  apply Forall_app. split; [exact Hk|]. apply Forall_app. split; [|exact Hr].
+  eapply Forall_impl; [|exact S1]. intros b Pb. apply plain_lt256. exact Pb.
+Qed.
+
+(* the invariant carried through any number of renames *)
+Definition name_inv (s : bytes) : Prop := wfs s /\ wf_bytes s /\ labels_fit s = true.
+
+Lemma renamed_inv orig res : renamed_of orig res -> name_inv orig -> name_inv res.
+Proof.
+  intros R (A & B & C). repeat split.
+  - eapply renamed_wfs; eassumption.
+  - eapply renamed_wf_bytes; eassumption.
+  - apply labels_fit_Bnd. eapply renamed_fits; [exact R|apply labels_fit_Bnd; exact C].
+Qed.
+
+Lemma iter_rename_inv f :
+  (forall s, wfs s -> exists r, f s = Ok r /\ renamed_of s r) ->
+  forall n s, name_inv s -> exists r, iter_rename f n s = Ok r /\ name_inv r.
+Proof.
+  intros Hf. induction n as [|n IH]; intros s Hs; [exists s; split; [reflexivity|exact Hs]|].
+  cbn [iter_rename]. destruct (Hf s (proj1 Hs)) as (r & -> & R). cbn [bind].
+  apply IH. eapply renamed_inv; eassumption.
+Qed.
+
+Lemma name_inv_enc_ok s : name_inv s -> enc_ok s.
+Proof. intros (_ & B & C). apply encodable_conclusion. apply labels_fit_label_ok; assumption. Qed.
+
+(* rename_stays_encodable: any number of conflict renames of an encodable name *)
+Theorem rename_stays_encodable n s :
+  utf8_valid s = true -> wf_bytes s -> labels_fit s = true ->
+  exists r, iter_rename name_change n s = Ok r /\ labels_fit r = true /\ enc_ok r.
+Proof.
+  intros V W F. destruct (iter_rename_inv name_change name_change_renamed n s) as (r & E & I);
+    [repeat split; [apply valid_wfs; exact V|exact W|exact F]|].
+  exists r. repeat split; [exact E|apply I|apply name_inv_enc_ok; exact I| apply name_inv_enc_ok; exact I].
+Qed.
+
+Theorem hostname_rename_stays_encodable n s :
+  utf8_valid s = true -> wf_bytes s -> labels_fit s = true ->
+  exists r, iter_rename hostname_change n s = Ok r /\ labels_fit r = true /\ enc_ok r.
+Proof.
+  intros V W F. destruct (iter_rename_inv hostname_change hostname_change_renamed n s) as (r & E & I);
+    [repeat split; [apply valid_wfs; exact V|exact W|exact F]|].
+  exists r. repeat split; [exact E|apply I|apply name_inv_enc_ok; exact I| apply name_inv_enc_ok; exact I].
+Qed.
+
+(* the new first label alone: never above 63 bytes, whatever the old one was *)
+Theorem renamed_first_label_bounded s r :
+  renamed_of s r -> exists new rest, r = new ++ rest /\ (length new <= 63)%nat
+                     /\ (rest = [] \/ exists t, rest = DOT :: t).
+Proof.
+  intros (first & rest & kept & suffix & -> & R & _ & _ & L & ->).
+  exists (kept ++ suffix), rest. repeat split; [rewrite <- app_assoc; reflexivity|exact L|].
+  destruct R as [->|(t & -> & _)]; [left; reflexivity|right; eauto].
+Qed.
+
+(* ---- names from the wire since 35da75b ---- *)
+
+Lemma present_wf ls : Forall wf_bytes ls -> wf_bytes (present ls).
+Proof.
+  induction 1 as [|l ls Hl _ IH]; [constructor|]. unfold present. cbn [flat_map]. fold (present ls).
+  apply wf_bytes_app; [apply wf_bytes_app; [exact Hl|constructor; [unfold DOT; lia|constructor]]|exact IH].
+Qed.
+
+(* reencode_safe: any name that passed the fit test re-encodes without panic *)
+Theorem fit_name_encodes name : wf_bytes name -> labels_fit name = true -> enc_ok name.
+Proof. intros W F. apply encodable_conclusion. apply labels_fit_label_ok; assumption. Qed.
+
+Theorem reencode_safe ls name :
+  Forall wf_bytes ls -> read_name_fit ls = Ok name -> name = present ls /\ enc_ok name.
+Proof.
+  unfold read_name_fit. intros W H. destruct (labels_fit (present ls)) eqn:F; [|discriminate].
+  inversion H; subst. split; [reflexivity|]. apply fit_name_encodes; [apply present_wf; exact W|exact F].
+Qed.
+
+Lemma encodable_is_labels_fit s : encodable s = labels_fit s.
+Proof. reflexivity. Qed.
+
+(* the test does not reject names without a backslash (dots inside labels included) *)
+Theorem read_name_fit_accepts ls :
+  Forall (fun l => ~ In BSL l /\ blen l <= 63) ls -> read_name_fit ls = Ok (present ls).
+Proof.
+  intros H. unfold read_name_fit. rewrite <- encodable_is_labels_fit.
+  rewrite (reencode_safe_without_backslash ls H). reflexivity.
+Qed.
+
+(* ... and rejects the former witness (40 bytes + backslash, then 40 bytes) *)
+Lemma read_name_fit_rejects_merged :
+  read_name_fit [rep 97 40 ++ [BSL]; rep 98 40; [95;120]; [95;116;99;112]; [108;111;99;97;108]] = Err.
+Proof. vm_compute. reflexivity. Qed.
+
+Lemma validators_total s :
+  utf8_valid s = true ->
+  safe (check_domain_suffix s) /\ safe (check_service_name s)
+  /\ (forall lim, safe (check_service_name_length s lim)) /\ safe (check_hostname s)
+  /\ safe (check_label_lengths s) /\ safe (name_change s) /\ safe (hostname_change s)
+  /\ (exists r, normalize_hostname s = Ok r)
+  /\ safe (api_browse s) /\ safe (api_resolve_hostname s).
+Proof.
+  intros H. repeat split;
+    try apply check_domain_suffix_total; try apply (check_service_name_total s H);
+    try apply check_service_name_length_total; try apply check_hostname_total;
+    try apply check_label_lengths_total; try apply (name_change_total s H);
+    try apply (hostname_change_total s H); try apply normalize_hostname_total;
+    try apply api_browse_total; try apply api_resolve_hostname_total.
+Qed.
+
